@@ -28,7 +28,7 @@ worker() {
     line="$d"
     for id in C01 C02 C03 C04 C05 C06 C07 C08 C09 C10 C11 C12 C13 C16 C17 C18 C19; do
       stages="$id"
-      case $id in C10|C11|C12|C17|C19) stages="$id ${id}chain";; C16) stages="C16 C16fx";; esac
+      case $id in C07|C10|C11|C12|C17|C19) stages="$id ${id}chain";; C16) stages="C16 C16fx";; esac
       worst=0
       for st in $stages; do
         VERIF_ROOT=$r VERIF_REPO=$rp VERIF_SEED=1 /tmp/cross/jv check $st --tier quick >/dev/null 2>&1; c=$?
